@@ -10,9 +10,10 @@ ASSUME = ["window output buffer never overflows", "single producer", "IDLETIMEOU
 def run(tier):
     if tier == "quick":
         plan = [("session", dict(size=2, moo=1, al=0, maxts=6, maxev=3, mc=dict(maxts=6, maxev=4))),
-                ("session", dict(size=2, moo=0, al=0, maxts=5, maxev=4, cap=4000))]
+                ("session", dict(size=2, moo=0, al=0, maxts=5, maxev=4, cap=4000)),
+                ("session", dict(size=2, moo=1, al=2, maxts=4, maxev=4, cap=1500, mc=dict(maxts=5, maxev=4)))]     # late updates: only into the key's own fired session
         free = [("session", dict(size=2, moo=1, al=0, keys=2), 60, 30), ("session", dict(size=3, moo=3, al=0, keys=3), 50, 40),
-                ("session", dict(size=2, moo=0, al=0, keys=1), 30, 30)]
+                ("session", dict(size=2, moo=0, al=0, keys=1), 30, 30), ("session", dict(size=3, moo=1, al=3, keys=2), 30, 40)]
     else:
         plan = [("session", dict(size=2, moo=1, al=0, maxts=7, maxev=4, cap=60000)),
                 ("session", dict(size=2, moo=0, al=0, maxts=6, maxev=4, cap=40000)),
